@@ -50,6 +50,7 @@ import (
 	"os"
 	"slices"
 	"sync"
+	"sync/atomic"
 	"time"
 
 	"github.com/ovh/kmip-go"
@@ -365,6 +366,7 @@ func WithDialerUnsafe(dialer DialerFunc) Option {
 type Client struct {
 	lock              *sync.Mutex
 	conn              *conn
+	closed            atomic.Bool
 	version           *kmip.ProtocolVersion
 	supportedVersions []kmip.ProtocolVersion
 	dialer            DialerFunc
@@ -484,7 +486,12 @@ func (c *Client) Addr() string {
 // Close terminates the client's connection and releases any associated resources.
 // It returns an error if the connection could not be closed.
 func (c *Client) Close() error {
-	return c.conn.Close()
+	c.closed.Store(true)
+	// There is no connection when the last reconnection attempt failed.
+	if conn := c.conn; conn != nil {
+		return conn.Close()
+	}
+	return nil
 }
 
 func (c *Client) reconnect(ctx context.Context) error {
@@ -492,6 +499,9 @@ func (c *Client) reconnect(ctx context.Context) error {
 	if c.conn != nil {
 		_ = c.conn.Close()
 		c.conn = nil
+	}
+	if c.closed.Load() {
+		return net.ErrClosed
 	}
 	stream, err := c.dialer(ctx)
 	if err != nil {
@@ -509,6 +519,9 @@ func (c *Client) reconnect(ctx context.Context) error {
 func (c *Client) doRountrip(ctx context.Context, msg *kmip.RequestMessage) (*kmip.ResponseMessage, error) {
 	c.lock.Lock()
 	defer c.lock.Unlock()
+	if c.closed.Load() {
+		return nil, net.ErrClosed
+	}
 	if c.conn == nil {
 		if err := c.reconnect(ctx); err != nil {
 			return nil, err
